@@ -4,3 +4,7 @@ open Bec2Verif.Props.C01
 #print axioms readBinary_writeBinary
 #print axioms readBinary_writeBinary_aes
 #print axioms consts_pinned
+#print axioms text_roundtrip
+#print axioms path_newlines
+#print axioms readFile_writeFile
+#print axioms readFile_writeFile_path
